@@ -67,7 +67,7 @@ func NewRun(prop, tier string) *Run {
 		var all []Finding
 		if err := json.Unmarshal(b, &all); err != nil {
 			fmt.Fprintln(os.Stderr, "known_findings.json:", err)
-			os.Exit(2)
+			os.Exit(3)
 		}
 		for _, f := range all {
 			if f.Property == prop {
